@@ -122,6 +122,7 @@ func (r *Run) unknownCall(st *State, fr *Frame, f T, args []Val, sig *types.Sign
 		forks = append(forks, p)
 	}
 	r.setResult(st, fr, dst, res)
+	r.afterCall(st, fr, "dynamic", args, res, sig, in)
 	return forks
 }
 
@@ -191,6 +192,18 @@ func (r *Run) afterCall(st *State, fr *Frame, callee string, args []Val, res []V
 			extra[fmt.Sprintf("ret%d", i)] = sv
 		}
 		switch cl.Words[1] {
+		case "havoc":
+			// after-call SITE havoc : region:<name> ... — state the callee may have changed through closures it was handed
+			for _, w := range strings.Fields(cl.Expr) {
+				if strings.HasPrefix(w, "region:") {
+					nm := strings.TrimPrefix(w, "region:")
+					for rn := range e.regions {
+						if rn == nm || strings.HasPrefix(rn, nm+".") || (strings.HasSuffix(nm, ".") && strings.HasPrefix(rn, nm)) {
+							e.havocRegion(st, rn)
+						}
+					}
+				}
+			}
 		case "assume":
 			x, err := parseSpec(cl.Expr)
 			if err != nil {
